@@ -1057,7 +1057,10 @@ class Exec:
                 and self.ev(t.value, env).kind == 'dict' and not self.ev(t.value, env).opaque_tail \
                 and isinstance(self.ev(t.slice, env), (str, int, bool, Sym)):
             d, k = self.ev(t.value, env), self.ev(t.slice, env)
-            d.items = [(a, b) for a, b in d.items if a != k] + [(k, v)]
+            if any(a == k for a, _ in d.items):
+                d.items = [(a, v if a == k else b) for a, b in d.items]      # an existing key keeps its place
+            else:
+                d.items = d.items + [(k, v)]
             self.events.append(('mutate', d.id, 'setitem', (k,), (('value', v),)))
         elif isinstance(t, (ast.Attribute, ast.Subscript)):
             lv = self.lvalue(t, env)
